@@ -209,6 +209,7 @@ pub fn fuzz_image(data: &[u8]) {
         junk_after_end: f(12),
         extra_dir_clusters: f(13),
         stale_count: f(14),
+        ea_handle: f(15),
     };
     let mut_entropy: Vec<u32> = (0..4).map(|_| r.u32()).collect();
     let mut entropy: Vec<u32> = Vec::new();
